@@ -145,6 +145,8 @@ def run_history(acc, role, start, hist, origin, counters=None):
                 bad("R1-wrong-message", f"{where}: delivered {deliv[0]!r}")
             if disc:
                 # too-low outside a resend wait (or any other session-level reason): history ends here
+                if off > 0 and not m.awaiting and not free_reset and not rrs:
+                    bad(f"R3-missing-resendrequest/disconnected-instead/{t}", f"{where}: a frame above the expected number outside a resend wait must trigger a ResendRequest; the endpoint disconnected without one")
                 if off >= 0 and not (t in ("GF", "RS")):
                     acc.klass("disconnected-unexpectedly-FREE")
                 acc.klass("ended-by-disconnect")
